@@ -162,7 +162,7 @@ fn store_source() -> InMemorySource {
     s
 }
 
-const API_NAMES: [&str; 5] = ["valid", "broken", "absent", "valid.liquid", "nested"];
+const API_NAMES: [&str; 6] = ["valid", "broken", "absent", "valid.liquid", "nested", " valid"];
 
 fn observe(store: &dyn PartialStore, op: u64) -> String {
     let n = API_NAMES[(op / 4) as usize];
